@@ -21,6 +21,44 @@ def make_ds(tag, extra_class=False):
     if extra_class: b.add_entities("tag", [f"t{tag}a", f"t{tag}b"])
     return b.build()
 
+def gen_ds(rnd, str_ids=False, sorted_ids=False, attrs=True):
+    """a dataset whose users and items are registered in several batches (later batches may hold smaller identifiers), with a
+    scalar, a list, a dense-vector and a sparse-vector attribute on the items"""
+    import scipy.sparse as sps
+    conv = (lambda x: f"k{x:03d}") if str_ids else int
+    items = rnd.sample(range(10, 60), rnd.randint(4, 9)); users = rnd.sample(range(100, 140), rnd.randint(3, 7))
+    if sorted_ids: items.sort(); users.sort()
+    b = DatasetBuilder()
+    cut_i = rnd.randint(1, len(items) - 1); cut_u = rnd.randint(1, len(users) - 1)
+    for cls, ids, cut in (("item", items, cut_i), ("user", users, cut_u)):
+        b.add_entities(cls, [conv(x) for x in ids[:cut]]); b.add_entities(cls, [conv(x) for x in ids[cut:]])
+    rows = [(conv(u), conv(i), float(rnd.randint(1, 5)), rnd.randint(0, 1000)) for u in users for i in items if rnd.random() < 0.55]
+    if not rows: rows = [(conv(users[0]), conv(items[0]), 3.0, 1)]
+    b.add_interactions("rating", pd.DataFrame(rows, columns=["user_id", "item_id", "rating", "timestamp"]), entities=["user", "item"], default=True)
+    if attrs:
+        sub = [conv(x) for x in rnd.sample(items, rnd.randint(1, len(items)))]
+        b.add_scalar_attribute("item", "title", sub, [f"t-{x}" for x in sub])
+        b.add_list_attribute("item", "tags", sub, [[f"g{rnd.randint(0, 4)}" for _ in range(rnd.randint(0, 3))] for _ in sub])
+        b.add_vector_attribute("item", "emb", sub, np.array([[rnd.randint(-4, 4) / 2 for _ in range(3)] for _ in sub]))
+        b.add_vector_attribute("item", "sp", sub, sps.csr_array(np.array([[rnd.choice([0, 0, 1.5, -2.0]) for _ in range(4)] for _ in sub])))
+    return b.build()
+
+def observe(ds):
+    """what a user of the dataset can see: identifiers and numbering, interaction views, per-user rows, statistics, attribute values"""
+    out = {"schema": ds.schema.model_dump_json(), "users": [str(x) for x in ds.users.ids()], "items": [str(x) for x in ds.items.ids()]}
+    it = ds.interaction_table(format="pandas", original_ids=True)
+    out["rows"] = sorted(map(tuple, it.astype(str).values.tolist()))
+    nt = ds.interaction_table(format="pandas", original_ids=False)
+    out["rows_by_number"] = sorted(map(tuple, nt.astype(str).values.tolist()))
+    out["user_rows"] = {str(u): (lambda r: None if r is None else sorted(zip(map(str, r.ids()), map(float, r.field("rating")))))(ds.user_row(u)) for u in ds.users.ids()}
+    st = ds.item_stats(); out["item_counts"] = {str(i): int(c) for i, c in zip(st.index, st["count"])}
+    m = ds.interactions().matrix().scipy(attribute="rating").tocoo()
+    out["matrix"] = sorted(zip(map(int, m.row), map(int, m.col), map(float, m.data)))
+    for a in ds.schema.entities["item"].attributes:
+        at = ds.entities("item").attribute(a)
+        out["attr:" + a] = dict(zip(map(str, at.ids()), json.loads(json.dumps(at.arrow().to_pylist(), default=str))))
+    return json.dumps(out, sort_keys=True, default=str)
+
 def fingerprint(ds):
     out = {"schema": ds.schema.model_dump_json()}
     for n, t in ds._data.tables.items(): out[n] = t.to_pydict()
@@ -125,6 +163,12 @@ def gen(rng: random.Random, tier: str):
         yield {"kind": "collection", "n": rng.randint(0, 4), "same_fields": rng.random() < 0.6, "seed": rng.randrange(10**6)}
     for _ in range(max(4, n // 10)):
         yield {"kind": "dataset", "seed": rng.randrange(10**6), "extra": rng.random() < 0.5, "how": rng.choice(["native", "pickle"])}
+    # generated datasets (identifiers registered out of order, integer or string, every attribute layout) and models trained on them
+    for j in range(max(6, n // 10)):
+        yield {"kind": "dataset2", "seed": rng.randrange(10**6), "str_ids": rng.random() < 0.35, "how": ["native", "pickle"][j % 2], "sorted_ids": rng.random() < 0.2}
+    scorers = ["pop", "pop-rank", "bias", "iknn", "uknn", "als", "ials", "funksvd", "pipeline"]
+    for j in range(max(len(scorers), n // 10)):
+        yield {"kind": "model", "scorer": scorers[j % len(scorers)], "seed": rng.randrange(10**6), "str_ids": rng.random() < 0.3, "sorted_ids": rng.random() < 0.2}
 
 def _mk_il(rnd, L, str_ids, fields, ordered, vocab="none", nan_scores=False):
     ids = rnd.sample(range(100, 130), L)
@@ -245,6 +289,60 @@ def run(case: dict, lean: Lean) -> Outcome:
         # what remains unrepaired concerns empty collections and empty lists only; a failure on a non-empty list is a new violation
         only_empty = all(f.startswith("parquet:") or f.split(": {'ids': []")[0] != f for f in failed)
         if key is None and failed and (case["n"] == 0 or 0 in lens) and only_empty: key = "ItemListCollection.save_parquet: empty collection / empty lists"
+    elif kind == "dataset2":
+        ds = gen_ds(rnd, case["str_ids"], case["sorted_ids"]); ob = observe(ds)
+        ids = [str(x) for x in ds.items.ids()] + [str(x) for x in ds.users.ids()]
+        classes.append("generated dataset:" + case["how"])
+        if not case["sorted_ids"]: classes.append("identifiers registered out of order")
+        if case["str_ids"]: classes.append("string identifiers")
+        tmp = tempfile.mkdtemp(prefix="c15_", dir=WORK)
+        try:
+            if case["how"] == "native": ds.save(Path(tmp) / "d"); o = Dataset.load(Path(tmp) / "d")
+            else: o = pickle.loads(pickle.dumps(ds))
+            ob2 = observe(o)
+            if ob2 != ob:
+                a, b_ = json.loads(ob), json.loads(ob2)
+                failed.append(f"dataset differs after {case['how']} round trip in " + ", ".join(k for k in a if a[k] != b_.get(k)))
+            if observe(ds) != ob: failed.append("storing the dataset changed it")
+        except Exception as e:
+            failed.append(f"{case['how']}: {type(e).__name__}: {str(e)[:70]}")
+        finally:
+            shutil.rmtree(tmp, ignore_errors=True)
+    elif kind == "model":
+        from lenskit.basic import PopScorer, BiasScorer
+        from lenskit.knn import ItemKNNScorer, UserKNNScorer
+        from lenskit.als import BiasedMFScorer, ImplicitMFScorer
+        from lenskit.funksvd import FunkSVDScorer
+        from lenskit.pipeline import topn_pipeline
+        from lenskit.training import TrainingOptions
+        from lenskit.data import RecQuery
+        ds = gen_ds(rnd, case["str_ids"], case["sorted_ids"], attrs=False)
+        classes.append("model:" + case["scorer"])
+        if not case["sorted_ids"]: classes.append("identifiers registered out of order")
+        if case["str_ids"]: classes.append("string identifiers")
+        mk = {"pop": lambda: PopScorer(), "pop-rank": lambda: PopScorer(score="rank"), "bias": lambda: BiasScorer(damping=2), "iknn": lambda: ItemKNNScorer(max_nbrs=4, min_nbrs=1, min_sim=-1.0 if False else 1e-6),
+              "uknn": lambda: UserKNNScorer(max_nbrs=4, min_nbrs=1), "als": lambda: BiasedMFScorer(embedding_size=3, epochs=2), "ials": lambda: ImplicitMFScorer(embedding_size=3, epochs=2),
+              "funksvd": lambda: FunkSVDScorer(features=2, epochs=2), "pipeline": lambda: BiasScorer(damping=1)}[case["scorer"]]
+        if True:
+            cand = ItemList(item_ids=list(ds.items.ids()))
+            def scores_of(model):
+                out = {}
+                for u in ds.users.ids():
+                    q = RecQuery(user_id=u, user_items=ds.user_row(u))
+                    r = model.run("recommender", query=q, n=3) if case["scorer"] == "pipeline" else model(cand) if case["scorer"].startswith("pop") else model(q, cand)
+                    out[str(u)] = [(str(i), None if sc is None or math.isnan(sc) else float(sc)) for i, sc in zip(r.ids(), r.scores())]
+                return out
+            if case["scorer"] == "pipeline": model = topn_pipeline(mk(), n=3); model.train(ds, TrainingOptions(rng=case["seed"]))
+            else: model = mk(); model.train(ds, TrainingOptions(rng=case["seed"]))
+            before = scores_of(model)          # (a failure up to here is the harness's own, not a finding)
+        try:
+            m2 = pickle.loads(pickle.dumps(model)); after = scores_of(m2)
+            if after != before:
+                bad = [u for u in before if before[u] != after.get(u)]
+                failed.append(f"reloaded {case['scorer']} gives different scores for users {bad[:3]}: {before[bad[0]][:3]} -> {after[bad[0]][:3]}")
+            if scores_of(model) != before: failed.append("pickling the model changed it")
+        except Exception as e:
+            failed.append(f"model {case['scorer']}: {type(e).__name__}: {str(e)[:90]}")
     else:
         ds = make_ds(case["seed"] % 1000, extra_class=case["extra"]); fp = fingerprint(ds)
         tmp = tempfile.mkdtemp(prefix="c15_", dir=WORK)
@@ -264,5 +362,5 @@ SPEC = CheckSpec(
     pid="C15",
     theorems=[f"LK.Persist.C15_Persist_{n}" for n in ["removal_phase_safe", "onlyFrom_load", "save_crash_safe", "save_fresh_crash_safe"]],
     correspondence_ops=["c15.crash", "c15.getstate", "c15.arrow_rt"],
-    nontrivial_rule="distinct cases reaching ≥1 of: crash over fresh / existing directory × torn / clean × each load verdict; item lists (empty, string ids), collections (empty, with empty lists, differing fields), datasets (native, pickle)",
+    nontrivial_rule="distinct cases reaching ≥1 of: crash over fresh / existing directory × torn / clean × each load verdict; item lists (empty, string ids), collections (empty, with empty lists, differing fields), datasets (native, pickle; generated with out-of-order / string identifiers and every attribute layout), pickled models of nine scorer kinds",
     budgets={"quick": 60, "thorough": 12000}, gen=gen, run=run, shrink=None)
